@@ -333,7 +333,10 @@ def run(chk, repo):
     chk.floor("R4.3", nc, 20, "carrier/path obligations")
     # Poly.__pow__ general arm: product of len-1 copies and self, copies first
     pw = repo.find(LP, "Poly.__pow__")
-    last = max((n for n in own_nodes(pw) if isinstance(n, ast.Return)), key=lambda n: n.lineno)
+    # the arm that multiplies copies: the return built on reduce(..) wherever it stands (else the last return)
+    prets = [n for n in own_nodes(pw) if isinstance(n, ast.Return)]
+    reds = [n for n in prets if isinstance(n.value, ast.Call) and canon_call(pmod, n.value) == "functools.reduce"]
+    last = reds[-1] if len(reds) == 1 else max(prets, key=lambda n: n.lineno)
     good = False
     v = last.value
     if isinstance(v, ast.Call) and canon_call(pmod, v) == "functools.reduce" and canon(pmod, v.args[0]) == "operator.mul":
